@@ -197,10 +197,10 @@ func vfArm(sess *vfSession, upload bool, ev vfEvent, fire func()) *vfTracker {
 // vfScenarios is the fixed family used by the enumerations; more are drawn by rapid in the thorough tier.
 func vfScenarios() []vfScenario {
 	return []vfScenario{
-		{Name: "download-3files-v4", Cfg: vfPairCfg{Upload: false, Protocol: 4, Bufsize: 4096, Timeout: 3}, Files: 3, Size: 60000, Pre: "collide"},
+		{Name: "download-3files-v4", Cfg: vfPairCfg{Upload: false, Protocol: 4, Bufsize: 4096, Timeout: 3}, Files: 3, Size: 60000, Pre: "collide", Sess: vfSessOpts{DestSpell: 1}},
 		{Name: "upload-dir-v3-overwrite-resume", Cfg: vfPairCfg{Upload: true, Protocol: 3, Overwrite: true, Directory: true, Bufsize: 4096, Timeout: 3}, Files: 4, Size: 50000, Dir: true, Pre: "prefix"},
-		{Name: "upload-archive-v4", Cfg: vfPairCfg{Upload: true, Protocol: 4, Directory: true, Bufsize: 4096, Timeout: 3}, Files: 5, Size: 30000, Dir: true, Pre: "collide"},
-		{Name: "download-dir-binary-overwrite", Cfg: vfPairCfg{Upload: false, Protocol: 4, Binary: true, Overwrite: true, Directory: true, Bufsize: 8192, Timeout: 3}, Files: 4, Size: 40000, Dir: true, Pre: "prefix"},
+		{Name: "upload-archive-v4", Cfg: vfPairCfg{Upload: true, Protocol: 4, Directory: true, Bufsize: 4096, Timeout: 3}, Files: 5, Size: 30000, Dir: true, Pre: "collide", Sess: vfSessOpts{DestSpell: 1}},
+		{Name: "download-dir-binary-overwrite", Cfg: vfPairCfg{Upload: false, Protocol: 4, Binary: true, Overwrite: true, Directory: true, Bufsize: 8192, Timeout: 3}, Files: 4, Size: 40000, Dir: true, Pre: "prefix", Sess: vfSessOpts{DestSpell: 2}},
 		{Name: "upload-single-v2-binary", Cfg: vfPairCfg{Upload: true, Protocol: 2, Binary: true, Escape: true, Bufsize: 4096, Timeout: 3}, Files: 1, Size: 150000},
 		{Name: "download-single-v1", Cfg: vfPairCfg{Upload: false, Protocol: 1, Timeout: 3}, Files: 2, Size: 20000, Pre: "collide"},
 	}
